@@ -106,8 +106,14 @@ for _t, _d in _seq:
     if _order == 1:
         # unstructure first (an instance built by hand), then structure
         pass
-    unstructure_to_dict(structure_from_dict(_d, _t))
-DataclassSerializer.serialize(Node("w", next=Node("v")))
+    try:
+        unstructure_to_dict(structure_from_dict(_d, _t))
+    except Exception:  # a failing warm-up is reported by the conditions themselves
+        pass
+try:
+    DataclassSerializer.serialize(Node("w", next=Node("v")))
+except Exception:
+    pass
 
 
 def _norm(d):
@@ -542,8 +548,11 @@ def _factory(extra):
 
 
 _MA, _MB = _factory(False), _factory(True)
-unstructure_to_dict(structure_from_dict({"name": "w"}, _MA))
-unstructure_to_dict(structure_from_dict({"id": "w", "qty": 1}, _MB))
+for _t, _d in [(_MA, {"name": "w"}), (_MB, {"id": "w", "qty": 1})]:
+    try:
+        unstructure_to_dict(structure_from_dict(_d, _t))
+    except Exception:
+        pass
 
 
 def ob_same_qualname_types(first_b: bool, s: str, q: int) -> bool:
